@@ -59,7 +59,13 @@ type c18Write struct {
 	Dst16    bool    `json:"dst_16byte"`
 	UseMaker bool    `json:"client4_maker"`   // check client4.MakeRawUDPPacket instead (fields only)
 	Steer    int     `json:"steer,omitempty"` // >0: two payload octets are set so that the UDP checksum computes to c18Targets[Steer-1]
+	// SteerAddr >0: the low half of the destination address is chosen so that the sum of the pseudo-header words
+	// (addresses + protocol, with or without the UDP length) lands on c18SumTargets[SteerAddr-1]: just below a multiple of
+	// 65,536, where a partial sum folded too early or too seldom loses a carry
+	SteerAddr int `json:"steer_addr,omitempty"`
 }
+
+var c18SumTargets = []uint32{0xffff, 0x10000, 0x1fffe, 0x1ffff, 0x20000, 0x2fffd, 0x2fffe, 0x2ffff, 0x30000, 0x3fffc}
 
 // checksum values worth hitting on purpose: a computed zero (transmitted as 0xFFFF), and values whose neighbours
 // differ by a carry in either octet
@@ -95,6 +101,23 @@ var c18w = newChk("C18", "write-frame",
 		copy(src[:], c.BoundIP)
 		var dst4 [4]byte
 		copy(dst4[:], c.DstIP)
+		if c.SteerAddr > 0 {
+			target := c18SumTargets[(c.SteerAddr-1)%len(c18SumTargets)]
+			l := uint32(0)
+			if (c.SteerAddr-1)/len(c18SumTargets)%2 == 1 {
+				l = uint32(8 + len(c.Payload))
+			}
+			part := uint32(src[0])<<8 + uint32(src[1]) + uint32(src[2])<<8 + uint32(src[3]) + uint32(dst4[0])<<8 + uint32(dst4[1]) + 17 + l
+			if target >= part && target-part <= 0xffff {
+				low := target - part
+				dst4[2], dst4[3] = byte(low>>8), byte(low)
+				c.DstIP = append([]byte{}, dst4[:]...)
+				dst = net.IP(append([]byte{}, dst4[:]...))
+				if c.Dst16 {
+					dst = net.IPv4(dst4[0], dst4[1], dst4[2], dst4[3])
+				}
+			}
+		}
 		if c.Steer > 0 {
 			c.Payload = c18Steer(c.Payload, src, dst4, c.BoundPt, c.DstPort, c18Targets[(c.Steer-1)%len(c18Targets)])
 		}
@@ -217,6 +240,15 @@ func TestC18_WriteLengths(t *testing.T) {
 			} {
 				b.Payload = p
 				c18w.one(t, b)
+				if !b.UseMaker && (n < 8 || n%64 == 0) {
+					for sa := 1; sa <= 2*len(c18SumTargets); sa++ {
+						for _, hi := range [][]byte{{250, 10, 250, 20}, {10, 0, 0, 1}, {255, 255, 255, 255}} {
+							x := b
+							x.BoundIP, x.DstIP, x.SteerAddr = hi, []byte{250, 246, 0, 0}, sa
+							c18w.one(t, x)
+						}
+					}
+				}
 				if n >= 2 && !b.UseMaker {
 					for st := 1; st <= len(c18Targets); st++ {
 						b.Steer = st
@@ -246,6 +278,14 @@ func genC18Write() *rapid.Generator[c18Write] {
 		}
 		if rapid.IntRange(0, 3).Draw(t, "steer") == 0 {
 			c.Steer = rapid.IntRange(1, len(c18Targets)).Draw(t, "target")
+		}
+		if rapid.IntRange(0, 3).Draw(t, "steeraddr") == 0 {
+			c.SteerAddr = rapid.IntRange(1, 2*len(c18SumTargets)).Draw(t, "sumtarget")
+			// high address halves large enough for the bigger targets to be reachable
+			if rapid.Bool().Draw(t, "highwords") {
+				c.BoundIP = []byte{byte(rapid.IntRange(200, 255).Draw(t, "s0")), rapid.Byte().Draw(t, "s1"), byte(rapid.IntRange(200, 255).Draw(t, "s2")), rapid.Byte().Draw(t, "s3")}
+				c.DstIP = []byte{byte(rapid.IntRange(200, 255).Draw(t, "d0")), rapid.Byte().Draw(t, "d1"), 0, 0}
+			}
 		}
 		return c
 	})
@@ -458,6 +498,24 @@ func genC18Read() *rapid.Generator[c18Read] {
 				Payload: gen.Fill(t, rapid.SampledFrom([]int{0, 1, 2, 7, 8, 9, 240, 300, 548}).Draw(t, "plen"), "pl"),
 				Pad:     rapid.SampledFrom([]int{0, 0, 1, 4, 18}).Draw(t, "pad"), Delta: rapid.IntRange(0, 1000).Draw(t, "delta"),
 				Cut: rapid.IntRange(0, 2000).Draw(t, "cut"), SrcIP: rapid.SliceOfN(rapid.Byte(), 4, 4).Draw(t, "sip"), SrcPort: rapid.IntRange(0, 65535).Draw(t, "sp")}
+			// coincidences between fields: the sender uses the receiver's own port and/or an address that also appears
+			// elsewhere in the exchange (unconfigured 0.0.0.0, the bound address, limited broadcast)
+			switch rapid.IntRange(0, 7).Draw(t, "coincide") {
+			case 0:
+				f.SrcPort = c.BoundPt
+			case 1:
+				f.SrcPort = c.BoundPt
+				f.SrcIP = []byte{0, 0, 0, 0}
+			case 2:
+				f.SrcPort = c.BoundPt
+				if len(c.BoundIP) == 4 {
+					f.SrcIP = append([]byte{}, c.BoundIP...)
+				} else {
+					f.SrcIP = []byte{255, 255, 255, 255}
+				}
+			case 3:
+				f.SrcIP = []byte{0, 0, 0, 0}
+			}
 			c.Frames = append(c.Frames, f)
 		}
 		return c
